@@ -43,8 +43,8 @@ type c18bScenario struct {
 }
 
 func genC18Burst(t *rapid.T) c18bScenario {
-	return c18bScenario{C: rapid.IntRange(1, 3).Draw(t, "c"), K: rapid.IntRange(4, 16).Draw(t, "k"), Rounds: rapid.IntRange(20, 200).Draw(t, "rounds"),
-		Spin: rapid.SampledFrom([]int{0, 1, 10, 100}).Draw(t, "spin"), Procs: rapid.SampledFrom([]int{2, 4, 16}).Draw(t, "procs")}
+	return c18bScenario{C: rapid.IntRange(1, 3).Draw(t, "c"), K: rapid.IntRange(4, 32).Draw(t, "k"), Rounds: rapid.IntRange(100, 600).Draw(t, "rounds"),
+		Spin: rapid.SampledFrom([]int{0, 1, 10, 100}).Draw(t, "spin"), Procs: rapid.SampledFrom([]int{4, 16, 16}).Draw(t, "procs")}
 }
 
 func execC18Burst(sc c18bScenario) (res pbt.Result) {
@@ -148,7 +148,7 @@ func execC18Burst(sc c18bScenario) (res pbt.Result) {
 func TestC18GetBurst(t *testing.T) {
 	pbt.Run(t, pbt.Spec[c18bScenario]{
 		Property: "C18", Name: "C18GetBurst",
-		Rule: "the real api.New(...).Register mux with get-concurrency 1-3; 20-200 rounds in which 4-16 goroutines released together GET a router route and /api/v2/alerts/groups; the handlers count how many of them are inside at the same time (each stays for 0-100 scheduler yields); GOMAXPROCS 2/4/16. The count never exceeds the configured concurrency, every answer is 200 or 503, and the refusal counter equals the number of 503 answers. Real scheduler; built with -race in the thorough tier. Non-trivial: some requests were served and some refused.",
+		Rule: "the real api.New(...).Register mux with get-concurrency 1-3; 100-600 rounds in which 4-32 goroutines released together GET a router route and /api/v2/alerts/groups; the handlers count how many of them are inside at the same time (each stays for 0-100 scheduler yields); GOMAXPROCS 4/16. The count never exceeds the configured concurrency, every answer is 200 or 503, and the refusal counter equals the number of 503 answers. Real scheduler; built with -race in the thorough tier. Non-trivial: some requests were served and some refused.",
 		Gen:  genC18Burst, Exec: execC18Burst,
 	})
 }
